@@ -136,6 +136,20 @@ func init() {
 			return a[0]
 		},
 		vhPkg + "Stop": func(fr *frame, a []value) value { panic(pathAbort{kind: abortEnd}) },
+		vhPkg + "Memo": func(fr *frame, a []value) value {
+			key := a[0].(string)
+			if v, ok := fr.i.memo[key]; ok {
+				return v
+			}
+			nv := len(fr.i.path.vars)
+			r := call(fr.i, fr, 0, a[1], nil)
+			s, ok := r.(string)
+			if !ok || len(fr.i.path.vars) != nv {
+				panic(engineError{"vh.Memo: the memoised prefix is not concrete (" + key + ")"})
+			}
+			fr.i.memo[key] = s
+			return s
+		},
 		vhPkg + "Param": func(fr *frame, a []value) value {
 			if v, ok := fr.i.cfg.Params[a[0].(string)]; ok {
 				return v
